@@ -156,7 +156,7 @@ def case_st(quick):
                                   "toolchains": st.sampled_from([None, 0, 1, 2, 3, 4, 5])})
 
 def shard(ctx):
-    run_hypothesis(ctx, case_st(ctx.quick()), lambda c: run_case(ctx, c), ctx.n(640, 12000), shrink=False, minimize=("edits",))
+    run_hypothesis(ctx, case_st(ctx.quick()), lambda c: run_case(ctx, c), ctx.n(1280, 12000), shrink=False, minimize=("edits",))
 
 def replay(ctx, case):
     run_case(ctx, case)
